@@ -122,7 +122,7 @@ OpUnparse       == /\ a.live
 \* I (C05): dup is an equal, independent copy: same text, same components
 OpDup           == /\ a.live /\ ~b.live /\ Step("dup", <<>>, TRUE, a, a, fresh)
 \* S: parsing the text again (spif_url_new_from_str of A)
-OpReparse(lk)   == /\ a.live /\ ~b.live /\ lk \in LookupsFor(a.t)
+OpReparse(lk)   == /\ a.live /\ ~b.live
                    /\ Step("reparse", <<lk>>, TRUE, a, Mk(a.t, ParseL(a.t, lk)), fresh)
 OpDelB          == /\ b.live /\ Step("b_del", <<>>, TRUE, a, NoObj, fresh)
 OpDel           == /\ a.live /\ Step("del", <<>>, TRUE, NoObj, b, FALSE)
@@ -134,7 +134,7 @@ Next == \/ \E t \in Texts : \E lk \in LookupsFor(t) : OpParse(t, lk)
         \/ OpNew
         \/ \E i \in 1 .. 7 : \E v \in {None} \cup {Some(s) : s \in Parts[Fields[i]]} : OpSet(Fields[i], v)
         \/ OpUnparse \/ OpDup \/ OpDelB \/ OpDel \/ OpAdopt
-        \/ \E lk \in Lookups : OpReparse(lk)
+        \/ \E lk \in Lookups : lk \in LookupsFor(a.t) /\ OpReparse(lk)
 Spec == Init /\ [][Next]_vars
 
 TypeOK == /\ a.live \in BOOLEAN /\ b.live \in BOOLEAN
